@@ -6,6 +6,12 @@ import Mahotas.Proofs.C14Holes
 import Mahotas.Proofs.C14Reg
 import Mahotas.Proofs.StarCheck
 import Mahotas.Proofs.C14Families
+import Mahotas.Proofs.C14Hitmiss
+import Mahotas.Proofs.C14Centre
+import Mahotas.Proofs.C14RegSpec
+import Mahotas.Proofs.C14HolesSpec
+import Mahotas.Proofs.C14Order
+import Mahotas.Proofs.C01Dispatch
 open Mahotas Mahotas.C14
 
 /-- **C14-T1 (local extrema).** For every image of every rank and shape, every pixel `p` inside it and
@@ -238,3 +244,341 @@ example :
   exact ⟨(C14_locmax_eq_spec_cross_box_disk false A [3, 3] (C01.crossElem 2 1) (Or.inl ⟨1, rfl, rfl⟩)).2,
     C14_regional_eq_spec_cross_box_disk false A [3, 3] (C01.crossElem 2 1) (Or.inl ⟨1, rfl, rfl⟩) [0, 1]
       (by decide), by decide⟩
+
+/-! ## Round 4 — every template shape for `hitmiss`, the centre entry of `Bc`, boxes with even sides,
+arbitrary neighbourhoods, the executable `regSpec`, plateaus of global extrema -/
+
+/-- **`hitmiss` in closed form for every template shape** (odd sides, even sides, templates larger than
+the image; any rank ≥ 1): the model of the kernel — the `slack` border skipping and the conjunction over
+the entries different from 2 — is 1 at `p` exactly when (a) the whole template lies inside the image when
+centred at `p` (centre `⌊b/2⌋` on every axis), (b) `p` is not skipped by the even-side rule
+`hmEvenExcluded`: on an axis with an even side `b`, the **last** axis evaluates every fitting position unless
+the image side equals `b` (then none), every **other** axis rejects the last fitting position `n − b/2`,
+and (c) every 0/1 entry equals the pixel under it. This is `hitmissClosedAt`, which the driver prints next to
+the model. -/
+theorem C14_hitmiss_even_closed_form (A : Img Int) (bshape : List Nat) (bc : Array Int) (p : List Int)
+    (hpos : ∀ b ∈ bshape, 0 < b) (hne : A.shape ≠ [])
+    (hl1 : bshape.length = A.shape.length) (hl2 : p.length = A.shape.length) :
+    hitmissAt A bshape (hmEntries bshape bc) p = hitmissClosedAt A bshape bc p := by
+  unfold hitmissAt hitmissClosedAt
+  rw [hmEvaluated_closed A.shape bshape p hpos hne hl1 hl2, hmEntries_all]
+  cases (templateInside A.shape bshape p && !hmEvenExcluded A.shape bshape p) <;> simp
+
+/-- the closed form is the property's definition when every template side is odd (nothing is skipped). -/
+theorem C14_hitmiss_closed_form_odd (A : Img Int) (bshape : List Nat) (bc : Array Int) (p : List Int)
+    (hodd : ∀ b ∈ bshape, b % 2 = 1) : hitmissClosedAt A bshape bc p = hitmissSpecAt A bshape bc p := by
+  unfold hitmissClosedAt hitmissSpecAt
+  rw [hmEvenExcluded_odd A.shape bshape p hodd]; simp
+
+/-- **a template that does not fit gives the all-zero answer.** If on some axis `i` the template side exceeds
+the image side — or equals it and is even — then the model of `hitmiss` is 0 at **every** position, whatever
+the entries and the order in which they are tested (no hypothesis on ranks or on `p`). -/
+theorem C14_hitmiss_template_larger_is_false (A : Img Int) (bshape : List Nat) (es : List (List Int × Int))
+    (p : List Int) (i : Nat) (hi : i < A.shape.length)
+    (h : A.shape.getD i 0 < bshape.getD i 0 ∨
+         (A.shape.getD i 0 = bshape.getD i 0 ∧ bshape.getD i 0 % 2 = 0)) :
+    hitmissAt A bshape es p = 0 := by
+  unfold hitmissAt
+  rw [hmEvaluated_false_of_small A.shape bshape p i hi (by omega)]; rfl
+
+/-- **`_remove_centre` and the C++ centre skipping, as the driver runs them.** `locModelRaw` / `regModelRaw`
+take the structuring element **as given**: `removeCentre` clears the entry at `tuple(s//2)` (Python), the
+local pass runs over the compressed footprint `rawOffsets` of what is left, the removal pass over the C++
+`neighbours(Bc)`. They equal the models on the neighbour list `neighbours S bc` that all other theorems of
+this file talk about — so those theorems are about what the driver runs. -/
+theorem C14_remove_centre_model (isMin : Bool) (A : Img Int) (S : List Nat) (bc : Array Int) :
+    rawOffsets S (removeCentre S bc) = neighbours S bc ∧
+    neighbours S (removeCentre S bc) = neighbours S bc ∧
+    locModelRaw isMin A S bc = locModel isMin A (neighbours S bc) ∧
+    regModelRaw isMin A S bc = regModel isMin A (neighbours S bc) :=
+  ⟨rawOffsets_removeCentre S bc, neighbours_removeCentre S bc, locModelRaw_eq isMin A S bc,
+    regModelRaw_eq isMin A S bc⟩
+
+/-- **the centre entry of `Bc` is irrelevant.** For every image, every structuring element of every shape
+(even sides and `1`-sides included) and **every** value `v` written at the centre entry
+`Bc[tuple(s//2 for s in Bc.shape)]`: the models of `locmax`/`locmin` and of `regmax`/`regmin` on the element
+as given return the same array, and so does the neighbour list `close_holes` floods with. -/
+theorem C14_remove_centre_irrelevant (isMin : Bool) (A : Img Int) (S : List Nat) (bc : Array Int) (v : Int) :
+    locModelRaw isMin A S (bc.setIfInBounds (ravelI S (centreOf S)) v) = locModelRaw isMin A S bc ∧
+    regModelRaw isMin A S (bc.setIfInBounds (ravelI S (centreOf S)) v) = regModelRaw isMin A S bc ∧
+    closeHoles A (neighbours S (bc.setIfInBounds (ravelI S (centreOf S)) v)) = closeHoles A (neighbours S bc) := by
+  rw [locModelRaw_eq, locModelRaw_eq, regModelRaw_eq, regModelRaw_eq, neighbours_setCentre]
+  exact ⟨rfl, rfl, rfl⟩
+
+/-- **the Python `_remove_centre` is itself unobservable**: had the centre been left set, the kernel would
+read the pixel itself through the zero offset, and a pixel does not beat itself. For every pixel inside
+the image and every element of the rank of the image, the local pass over the *uncleared* footprint
+answers as over the neighbour list. -/
+theorem C14_remove_centre_unobservable (isMin : Bool) (A : Img Int) (S : List Nat) (bc : Array Int)
+    (p : List Int) (hp : inside A.shape p = true) (hS : S.length = A.shape.length) :
+    locAt isMin A (rawOffsets S bc) p = locAt isMin A (neighbours S bc) p :=
+  locAt_rawOffsets isMin A S bc p hp hS
+
+/-- **local extrema with an all-ones box of arbitrary sides (even sides included) = their definition.**
+A box with an even side is not symmetric (its centre `⌊b/2⌋` is off-centre) but it is coordinate-wise
+star-shaped; hence for every rank, every image, every all-ones box of the rank of the image — sides 1, 2, 3,
+4, … in any combination — the model of `locmax`/`locmin` on the element as given marks exactly the pixels
+that no neighbour inside the image exceeds / undercuts, pixel by pixel and as whole output arrays (the two
+lists the driver prints). -/
+theorem C14_locmax_eq_spec_any_box (isMin : Bool) (A : Img Int) (S : List Nat) (bc : Array Int)
+    (hrank : S.length = A.shape.length) (hones : ∀ i, i < shapeSize S → bc.getD i 0 = 1) :
+    StarShaped (neighbours S bc) ∧
+    (∀ p, inside A.shape p = true →
+      locAt isMin A (neighbours S bc) p = locSpecAt isMin A (neighbours S bc) p) ∧
+    (locModelRaw isMin A S bc).toList = (allPos A.shape).map (locSpecAt isMin A (neighbours S bc)) := by
+  have hstar := starShaped_box S bc hones
+  have key : ∀ p, inside A.shape p = true →
+      locAt isMin A (neighbours S bc) p = locSpecAt isMin A (neighbours S bc) p := by
+    intro p hp
+    refine locAt_eq_spec isMin A _ p hp ?_ hstar
+    intro k hk
+    rw [neighbours_box_len S bc hones k hk, hrank, C01.inside_length hp]
+  refine ⟨hstar, key, ?_⟩
+  rw [locModelRaw_eq]
+  unfold locModel
+  rw [List.toList_toArray]
+  exact List.map_congr_left fun p hp => key p ((C01.mem_allPos A.shape p).mp hp)
+
+/-- **arbitrary (irregular) neighbourhoods: what `locmax`/`locmin` compute.** For every non-empty image and
+**every** list of offsets — not star-shaped, not symmetric, of any size — the model of `locmin_max`
+(neighbours read through `fix_offset(ExtendNearest)`) marks `p` exactly when no value at a neighbour
+position *clamped onto the image coordinate by coordinate* (`max 0 (min x (n−1))`) beats the pixel
+(`locClampedSpecAt`, printed by the driver as `cspec`): the irregular cases of the correspondence are judged
+against this specification. -/
+theorem C14_locmax_clamped_spec (isMin : Bool) (A : Img Int) (nb : List (List Int)) (p : List Int)
+    (hs : ∀ d ∈ A.shape, 0 < d) : locAt isMin A nb p = locClampedSpecAt isMin A nb p :=
+  locAt_eq_clamped isMin A nb p hs
+
+/-- **the executable specification `regSpec` = `Regional`.** The driver prints, next to the model of
+`regmax`/`regmin`, the array `regSpec`: start from the pixels with a strictly better neighbour inside the
+image and repeat `size` times "a pixel is rejected when an equal-valued neighbour (either direction) is
+rejected". For every image of every rank and shape and every symmetric neighbourhood: (1) `size` rounds
+always reach the fixed point — one more round changes nothing (`regSpecFixed`, which the driver also evaluates
+and prints as `fix=1`): the rounds only ever set flags, a round that changes the array sets at least one more
+of its `size` flags; (2) the accepted pixels are exactly the regional ones (`Regional`: every pixel of the
+plateau has no strictly better neighbour inside the image). Together with `C14_regional_eq_spec` the two arrays
+the driver prints for `reg` are equal for symmetric star-shaped neighbourhoods — by two different algorithms
+(stack flood vs. fixed-point iteration). -/
+theorem C14_regspec_eq_regional (isMin : Bool) (A : Img Int) (nb : List (List Int)) (hn : SymNb A nb) :
+    regSpecFixed isMin A nb = true ∧
+    ∀ q, inside A.shape q = true →
+      ((regSpec isMin A nb).getD (ravelI A.shape q) false = true ↔ Regional isMin A nb q) :=
+  ⟨regSpecFixed_always isMin, fun q hq => regSpec_iff hn (regSpecFixed_always isMin) q hq⟩
+
+/-- **plateaus of global extrema are marked, wherever they lie** (specialising `C14_regional_eq_spec`): for
+every cross / disk / odd box of the rank of the image and every pixel `q` inside the image whose value no
+pixel of the image exceeds (`regmax`) / undercuts (`regmin`), the model of `regmax`/`regmin` on the element as
+given marks `q` — in particular plateaus touching the border or a corner, several tied plateaus of the
+maximal value, and every pixel of a constant image. -/
+theorem C14_regmax_marks_global_extrema (isMin : Bool) (A : Img Int) (S : List Nat) (bc : Array Int)
+    (hfam : C01.CrossBoxDisk A.shape.length S bc) (q : List Int) (hq : inside A.shape q = true)
+    (hg : ∀ r, inside A.shape r = true → beats isMin (A.getD r 0) (A.getD q 0) = false) :
+    (regModelRaw isMin A S bc).getD (ravelI A.shape q) false = true := by
+  rw [regModelRaw_eq]
+  exact (C14_regional_eq_spec_cross_box_disk isMin A S bc hfam q hq).mpr (regional_of_global q hg)
+
+/-! non-vacuity of Round 4 -/
+
+/-- 2×2 template on a 3×3 image: the template fits at rows/columns 1..2; the first axis rejects row 2 (the
+    last fitting position), the last axis keeps both columns → positions (1,1), (1,2) are evaluated. -/
+example :
+    let A : Img Int := { shape := [3, 3], data := #[1, 1, 1, 1, 1, 1, 1, 1, 1] }
+    (allPos A.shape).map (hitmissAt A [2, 2] (hmEntries [2, 2] #[1, 1, 1, 1])) = [0, 0, 0, 0, 1, 1, 0, 0, 0] ∧
+    (allPos A.shape).map (hitmissClosedAt A [2, 2] #[1, 1, 1, 1]) = [0, 0, 0, 0, 1, 1, 0, 0, 0] ∧
+    (allPos A.shape).map (hitmissSpecAt A [2, 2] #[1, 1, 1, 1]) = [0, 0, 0, 0, 1, 1, 0, 1, 1] := by decide
+
+/-- a 1×4 template on a 2×3 image (larger on the last axis), a 2-template on a 2-image (even, equal) -/
+example : hitmissAt { shape := [2, 3], data := #[1, 1, 1, 1, 1, 1] } [1, 4] [] [0, 1] = 0 :=
+  C14_hitmiss_template_larger_is_false _ _ _ _ 1 (by decide) (Or.inl (by decide))
+example : hitmissAt { shape := [2], data := #[1, 1] } [2] [] [1] = 0 :=
+  C14_hitmiss_template_larger_is_false _ _ _ _ 0 (by decide) (Or.inr (by decide))
+
+/-- centre set / cleared / set to 7: same neighbour list; 2×2 all-ones box (even sides): neighbours
+    (-1,-1), (-1,0), (0,-1), star-shaped but not symmetric -/
+example : neighbours [3] #[1, 1, 1] = [[-1], [1]] ∧ rawOffsets [3] #[1, 1, 1] = [[-1], [0], [1]] ∧
+    rawOffsets [3] (removeCentre [3] #[1, 1, 1]) = [[-1], [1]] ∧
+    neighbours [2, 2] #[1, 1, 1, 1] = [[-1, -1], [-1, 0], [0, -1]] ∧
+    symNbB 2 (neighbours [2, 2] #[1, 1, 1, 1]) = false := by decide
+
+example :
+    let A : Img Int := { shape := [2, 3], data := #[2, 2, 1, 0, 1, 2] }
+    (locModelRaw false A [2, 2] #[1, 1, 1, 1]).toList = (allPos A.shape).map (locSpecAt false A (neighbours [2, 2] #[1, 1, 1, 1])) ∧
+    (locModelRaw false A [2, 2] #[1, 1, 1, 1]).toList = [true, true, false, false, false, true] :=
+  ⟨(C14_locmax_eq_spec_any_box false _ [2, 2] #[1, 1, 1, 1] rfl (by decide)).2.2, by decide⟩
+
+/-- an irregular neighbourhood (offset (0,2) without (0,1)): model = clamped specification ≠ `locSpecAt` -/
+example :
+    let A : Img Int := { shape := [1, 3], data := #[0, 1, 5] }
+    (allPos A.shape).map (locAt false A [[0, 2]]) = [false, false, true] ∧
+    (allPos A.shape).map (locClampedSpecAt false A [[0, 2]]) = [false, false, true] ∧
+    (allPos A.shape).map (locSpecAt false A [[0, 2]]) = [false, true, true] := by decide
+
+/-- `regSpec` reaches its fixed point on the 2×3 example (its rejected set is the complement of the model's marks); the maximal plateau
+    {(0,0),(0,1)} touches the border and is marked. -/
+example :
+    let A : Img Int := { shape := [2, 3], data := #[2, 2, 1, 0, 1, 2] }
+    regSpecFixed false A (neighbours [3, 3] (C01.crossElem 2 1)) = true ∧
+    (regSpecBad false A (neighbours [3, 3] (C01.crossElem 2 1))).toList = [false, false, true, true, true, false] ∧
+    (regModelRaw false A [3, 3] (C01.crossElem 2 1)).getD (ravelI A.shape [0, 1]) false = true := by
+  intro A
+  refine ⟨by decide, by decide, ?_⟩
+  exact C14_regmax_marks_global_extrema false A [3, 3] (C01.crossElem 2 1) (Or.inl ⟨1, rfl, rfl⟩) [0, 1] (by decide)
+    (by
+      intro r hr
+      have hall : ∀ r ∈ allPos A.shape, beats false (A.getD r 0) (A.getD [0, 1] 0) = false := by decide
+      exact hall r ((C01.mem_allPos A.shape r).mpr hr))
+
+/-- **the default / integer structuring elements** (`Bc=None`, `Bc=1`, `4`, `8`, `6`, any Python integer): the
+driver obtains the element through C01's model of `get_structuring_elem` (the `translate_sizes` table
+extracted from `morph.py`, the literal 3×3 cross, the cross loop). For every image of every rank, every dtype
+the element is cast to and every integer `v` (or `None`): the element is the cross `crossElem d r` of radius
+`r = seRadius d v` on `3 × … × 3` — a member of the cross/box/disk family — hence on it the model of
+`locmax`/`locmin` prints the definition and the model of `regmax`/`regmin` marks exactly the regional plateaus,
+with no hypothesis left about the neighbourhood. -/
+theorem C14_extrema_default_elem (dt : DT) (isMin : Bool) (A : Img Int) (arg : C01.BcArg)
+    (harg : arg = .none ∨ ∃ v : Int, arg = .int v) :
+    ∃ S bc, C01.getStructuringElem dt A.shape.length arg = .ok (S, bc) ∧
+      C01.CrossBoxDisk A.shape.length S bc ∧
+      (locModelRaw isMin A S bc).toList = (allPos A.shape).map (locSpecAt isMin A (neighbours S bc)) ∧
+      ∀ q, inside A.shape q = true →
+        ((regModelRaw isMin A S bc).getD (ravelI A.shape q) false = true ↔ Regional isMin A (neighbours S bc) q) := by
+  have key : ∀ r : Int, C01.CrossBoxDisk A.shape.length (List.replicate A.shape.length 3)
+      (C01.crossElem A.shape.length r) := fun r => Or.inl ⟨r, rfl, rfl⟩
+  have fin : ∀ r : Int,
+      (locModelRaw isMin A (List.replicate A.shape.length 3) (C01.crossElem A.shape.length r)).toList =
+        (allPos A.shape).map (locSpecAt isMin A (neighbours (List.replicate A.shape.length 3) (C01.crossElem A.shape.length r))) ∧
+      ∀ q, inside A.shape q = true →
+        ((regModelRaw isMin A (List.replicate A.shape.length 3) (C01.crossElem A.shape.length r)).getD (ravelI A.shape q) false = true ↔
+          Regional isMin A (neighbours (List.replicate A.shape.length 3) (C01.crossElem A.shape.length r)) q) := by
+    intro r
+    refine ⟨?_, fun q hq => ?_⟩
+    · rw [locModelRaw_eq]; exact (C14_locmax_eq_spec_cross_box_disk isMin A _ _ (key r)).2
+    · rw [regModelRaw_eq]; exact C14_regional_eq_spec_cross_box_disk isMin A _ _ (key r) q hq
+  rcases harg with rfl | ⟨v, rfl⟩
+  · exact ⟨_, _, C01.getSE_none dt _, key 1, fin 1⟩
+  · exact ⟨_, _, C01.getSE_int dt _ v, key _, fin _⟩
+
+/-- `close_holes(ref)` with the default element and `regmax(f, 8)`: the elements the dispatch builds -/
+example : C01.getStructuringElem dtBool 2 .none = .ok ([3, 3], #[0, 1, 0, 1, 1, 1, 0, 1, 0]) ∧
+    C01.getStructuringElem (dtU 8) 2 (.int 8) = .ok ([3, 3], #[1, 1, 1, 1, 1, 1, 1, 1, 1]) ∧
+    [256, 0, -1].map (C01.castTo (dtU 8)) = [0, 0, 255] :=
+  ⟨by rfl, by rfl, by decide⟩
+
+/-- **the executable specification `closeHolesSpec` = complement of `BorderConn`.** The driver prints, next to
+the model of `close_holes` (border seeding + stack flood), the array `closeHolesSpec`: start from the background
+pixels of the border and repeat `size` times "a background pixel is reached when a neighbour (either direction)
+is reached"; the result is the complement. For every image of every rank and shape and every symmetric
+neighbourhood: (1) `size` rounds reach the fixed point (a monotone iteration on `size` flags:
+`iter_mono_fixed`), (2) the result is true at `q` exactly when `q` is not a background pixel connected to the
+border, hence (3) with `C14_close_holes_eq_spec` the two arrays the driver prints for `holes` agree at every
+pixel — by two different algorithms. -/
+theorem C14_holesspec_eq_borderconn (ref : Img Int) (nb : List (List Int)) (hn : SymNb ref nb) :
+    reachStep ref nb (reachFinal ref nb) = reachFinal ref nb ∧
+    (∀ q, inside ref.shape q = true →
+      ((closeHolesSpec ref nb).getD (ravelI ref.shape q) false = true ↔ ¬ BorderConn ref nb q)) ∧
+    (ref.data.size = shapeSize ref.shape → ∀ q, inside ref.shape q = true →
+      (closeHoles ref nb).getD (ravelI ref.shape q) false =
+        (closeHolesSpec ref nb).getD (ravelI ref.shape q) false) := by
+  refine ⟨reachFinal_fixed, fun q hq => closeHolesSpec_iff hn q hq, fun hwf q hq => ?_⟩
+  have h1 := closeHoles_spec ref nb hwf q hq
+  have h2 := closeHolesSpec_iff hn q hq
+  cases ha : (closeHoles ref nb).getD (ravelI ref.shape q) false <;>
+    cases hb : (closeHolesSpec ref nb).getD (ravelI ref.shape q) false <;> simp_all
+
+/-- a 3×3 ring with the 3×3 cross: symmetric neighbourhood, the hole is closed by the specification as well -/
+example :
+    let A : Img Int := { shape := [3, 3], data := #[1, 1, 1, 1, 0, 1, 1, 1, 1] }
+    SymNb A (neighbours [3, 3] #[0, 1, 0, 1, 1, 1, 0, 1, 0]) ∧
+    (reachFinal A (neighbours [3, 3] #[0, 1, 0, 1, 1, 1, 0, 1, 0])).toList = List.replicate 9 false :=
+  ⟨⟨by decide, by decide⟩, by decide⟩
+
+/-- **the two lists the driver prints for `hitmiss` are equal** for every image of rank ≥ 1 and every template
+of that rank with positive sides (odd, even, larger than the image): the model's output array (`model=`) is the
+closed form's (`closed=`), position by position over the whole image. -/
+theorem C14_hitmiss_closed_form_arrays (A : Img Int) (bshape : List Nat) (bc : Array Int)
+    (hpos : ∀ b ∈ bshape, 0 < b) (hne : A.shape ≠ []) (hl1 : bshape.length = A.shape.length) :
+    (allPos A.shape).map (hitmissAt A bshape (hmEntries bshape bc)) =
+      (allPos A.shape).map (hitmissClosedAt A bshape bc) :=
+  List.map_congr_left fun p hp =>
+    C14_hitmiss_even_closed_form A bshape bc p hpos hne hl1
+      (C01.inside_length ((C01.mem_allPos A.shape p).mp hp))
+
+/-- **`hitmiss` never reads outside the image** — for every template shape, even sides and oversized templates
+included: at every position the `slack` rule evaluates (`hmEvaluated`), each of the entries tested
+(`hmEntries`: offset `k − ⌊b/2⌋` of every template entry different from 2) lies over a pixel inside the image, so
+the flat reads `input.at_flat(i + delta)` of the kernel stay within the buffer; everywhere else the kernel
+writes 0 without reading. -/
+theorem C14_hitmiss_reads_inside (A : Img Int) (bshape : List Nat) (bc : Array Int) (p : List Int)
+    (hpos : ∀ b ∈ bshape, 0 < b) (hne : A.shape ≠ [])
+    (hl1 : bshape.length = A.shape.length) (hl2 : p.length = A.shape.length)
+    (hev : hmEvaluated A.shape bshape p = true) :
+    ∀ e ∈ hmEntries bshape bc, inside A.shape (addPos p e.1) = true := by
+  intro e he
+  rw [hmEvaluated_closed A.shape bshape p hpos hne hl1 hl2, Bool.and_eq_true] at hev
+  unfold hmEntries at he
+  simp only [List.mem_filterMap, List.mem_range] at he
+  obtain ⟨i, hi, h⟩ := he
+  split at h
+  · cases h
+  · cases h
+    exact templateInside_reads A.shape bshape p _ hl1 hl2 hev.1 (inside_unravelI bshape i hi)
+
+/-- a 2×2 template on a 3×3 image is evaluated at (1,1) and (1,2) only; all four reads are inside there -/
+example : hmEvaluated [3, 3] [2, 2] [1, 2] = true ∧ hmEvaluated [3, 3] [2, 2] [2, 2] = false ∧
+    (hmEntries [2, 2] #[1, 1, 1, 1]).map (fun e => addPos [1, 2] e.1) = [[0, 1], [0, 2], [1, 1], [1, 2]] := by
+  decide
+
+/-- **only the order of the pixel values matters** — the soundness of the harness's float embedding. For every
+strictly increasing re-labelling `f` of the values, every image (`data` of the size of the shape), and every
+neighbourhood whose offsets have the rank of the image: the models of `locmax`/`locmin` and of `regmax`/`regmin`
+return the same arrays on the re-labelled image `mapImg f A` as on `A` (the kernels only ever compare two pixel
+values with `<`, `>`, `<=`, `>=`). Hence feeding a float image through the order isomorphism
+`x ↦ sign(x)·bits(|x|)` (NaN excluded) or through any other order-preserving integer labelling gives the same
+model output, and the result for integer images does not depend on the dtype's value range. -/
+theorem C14_order_embedding_invariant (f : Int → Int) (hf : ∀ a b : Int, a < b → f a < f b) (isMin : Bool)
+    (A : Img Int) (hwf : A.data.size = shapeSize A.shape) (nb : List (List Int))
+    (hlen : ∀ k ∈ nb, k.length = A.shape.length) :
+    locModel isMin (mapImg f A) nb = locModel isMin A nb ∧
+    regModel isMin (mapImg f A) nb = regModel isMin A nb :=
+  ⟨locModel_mapImg f hf isMin A hwf nb hlen, regModel_mapImg f hf isMin A hwf nb hlen⟩
+
+/-- re-labelling 0,1,2 as −7, 40, 41 keeps the regional maxima of the 2×3 example -/
+example :
+    let A : Img Int := { shape := [2, 3], data := #[2, 2, 1, 0, 1, 2] }
+    let B : Img Int := { shape := [2, 3], data := #[41, 41, 40, -7, 40, 41] }
+    (regModel false B (neighbours [3, 3] (C01.crossElem 2 1))).toList =
+      (regModel false A (neighbours [3, 3] (C01.crossElem 2 1))).toList := by decide
+
+/-- **the two arrays the driver prints for `reg` agree** (`model=` from the scan + stack flood of
+`remove_fake_regmin_max`, `spec=` from the fixed-point iteration): for every image of every rank and shape, every
+cross / disk / odd box of that rank (as given, centre set or not) and every pixel inside the image, the model of
+`regmax`/`regmin` and the executable specification `regSpec` give the same flag. -/
+theorem C14_reg_model_eq_regspec (isMin : Bool) (A : Img Int) (S : List Nat) (bc : Array Int)
+    (hfam : C01.CrossBoxDisk A.shape.length S bc) (q : List Int) (hq : inside A.shape q = true) :
+    (regModelRaw isMin A S bc).getD (ravelI A.shape q) false =
+      (regSpec isMin A (neighbours S bc)).getD (ravelI A.shape q) false := by
+  have h1 := C14_regional_eq_spec_cross_box_disk isMin A S bc hfam q hq
+  have h2 := (C14_regspec_eq_regional isMin A (neighbours S bc) (symNb_family hfam.regular A rfl)).2 q hq
+  rw [regModelRaw_eq]
+  cases ha : (regModel isMin A (neighbours S bc)).getD (ravelI A.shape q) false <;>
+    cases hb : (regSpec isMin A (neighbours S bc)).getD (ravelI A.shape q) false <;> simp_all
+
+/-- **the `slack` loop of `hitmiss` and its closed form** (partial: a finite table instead of all sizes). `hmLoop`
+transliterates the main loop of `hitmiss<T>` as far as *which flat indices are evaluated* goes (`while (!slack)`:
+find the first axis with a too small margin and zero `size` positions, or set `slack = dim(last) − Bc.dim(last) + 1`;
+then `--slack`, evaluate, `++i`); `hmEvaluated` — the definition every other `hitmiss` theorem is about — is its
+closed form. They agree for every image length 1–10 × template length 1–7 in 1-D, all image sides 1–5 × template
+sides 1–5 in 2-D, and image sides ≤ 3×3×4 × template sides ≤ 3×4×4 in 3-D (kernel evaluation). The driver
+re-checks the agreement (`loopok=`) on every `hitmiss` line of the correspondence. Missing: the proof for all
+shapes (the invariant "every axis whose later coordinates are not all zero has a sufficient margin"). -/
+theorem C14_hitmiss_loop_table_partial :
+    (∀ n ∈ List.range 10, ∀ b ∈ List.range 7, hmLoopOk [n + 1] [b + 1] = true) ∧
+    (∀ h ∈ List.range 5, ∀ w ∈ List.range 5, ∀ a ∈ List.range 5, ∀ b ∈ List.range 5,
+      hmLoopOk [h + 1, w + 1] [a + 1, b + 1] = true) ∧
+    (∀ d ∈ List.range 3, ∀ h ∈ List.range 3, ∀ w ∈ List.range 4, ∀ c ∈ List.range 3, ∀ a ∈ List.range 4,
+      ∀ b ∈ List.range 4, hmLoopOk [d + 1, h + 1, w + 1] [c + 1, a + 1, b + 1] = true) := by
+  decide +kernel
+
+/-- the loop on a 3×3 image with a 2×2 template: rows 0 and 2 are zeroed as whole rows, in row 1 column 0 is
+    zeroed, then `slack = 2` positions are evaluated -/
+example : hmLoopFlags [3, 3] [2, 2] = [false, false, false, false, true, true, false, false, false] := by decide
